@@ -355,7 +355,16 @@ func c12History(r *core.Run) {
 			if t.Chance(1, 3) {
 				// per-call fault on a private copy of the world's server state is not possible for
 				// static faults that republish; restrict to the ones that do not touch the world
-				switch t.Draw(3) {
+				switch t.Draw(5) {
+				case 3:
+					// before the collateral signing certificate existed (inside the root's and the PCK chain's windows)
+					early := w.Epoch.AddDate(-5, 0, -100)
+					times[world.TTcb], times[world.TQE] = early, early
+					fault = "clock-before-collateral-signer"
+				case 4:
+					// another caller's pool: a look-alike hierarchy only
+					pool = world.Pool(world.NewPKI(t, "X", w.Epoch, w.A).Root)
+					fault = "lookalike-pool"
 				case 0:
 					raw[t.Draw(600)] ^= 1 << t.Draw(8)
 					fault = "wire-bitflip"
